@@ -214,7 +214,7 @@ theorem C02_wfperson_of_parse (name : Str) (p : Person) (b : Bool)
             simp only [personTokens, List.mem_append] at this ⊢
             rcases this with h1 | h1 <;> simp [h1]
     exact (htok t hmem).2 ht
-  obtain ⟨_, h2, h3, h4, _⟩ := C04_von_longest name p b hk h
+  obtain ⟨_, h2, h3, h4, _⟩ := C04_von_longest name p b h
   have hfirst := (C04_tokens_preserved name p b h).1
   have hlast : p.last ≠ [] := h4 hvl
   have hf1 : p.first.length ≤ 1 := by
